@@ -30,6 +30,9 @@ checks = {
  "C08": dict(level="model_checking", ref="§C08", tech="stateless model checking of the real code: source-instrumented cooperative scheduler (every go statement, mutex, wait group, once, atomic, channel op, sleep) + deviation-bounded DFS over schedules, sharded over 16 processes",
    text="the real api.Build, re-compiled from /repo's working tree through an automatic instrumenter, runs under a scheduler that owns all goroutine interleavings; all schedules within the deviation bound (quick 1, thorough 2: preemptions and non-default picks at blocking points) around three default policies are executed for four module graphs (splitting+CSS+assets, mangle-props with three entries, failing entries+warnings, inject+glob); every execution must yield the identical observation (outputs, hashes, metafile, mangle cache, ordered diagnostics); deadlocks and panics are violations; a found difference is replayed before it is reported",
    note="sequentially consistent scheduler (no weak memory); Go map iteration order not controlled (replay divergence is an infrastructure error, not a verdict); serve_other.go is outside the instrumented set"),
+ "C18": dict(level=EXPL, ref="§C18", tech="exhaustive enumeration of build families x option variants x single-point edits; all pairs of builds compared (equal hashed path => equal bytes), reference closure and placeholder scan per build",
+   text="7 build families x 12 option variants x every single-point edit of every input file (code, comment-only, whitespace-only, legal-comment-only, JSON value, asset byte): for every hashed output path all builds emitting it must agree byte-for-byte (this decides 'name changes when content or anything referenced changes' through its contrapositive, including .map and .LEGAL.txt siblings); all import/url()/sourceMappingURL/legal links resolve inside the same build; no placeholder pattern survives",
+   note="families are hand-built; larger graphs (many chunks, cycles of dynamic imports) only as far as the splitting family goes"),
  "C19": dict(level=EXPL, ref="§C19", tech="exhaustive enumeration of build families x option variants; metafile decided against the emitted bytes (independent scanners for import/export/@import/url())",
    text="7 hand-built families covering externals, JSON, CJS, dynamic imports, tree-shaken modules, CSS @import/url()/data URLs, splitting, legal comments, glob imports, inject, copy/file loader entries x 11 option variants (minify, source maps, hashed/long name templates, public path, formats) plus the C02 graph family: outputs keys and byte sizes, entry points, per-output imports and exports, inputs with sizes and resolved imports, bytesInOutput sums and marker-based contribution",
    note="regex scanners are exact only for esbuild's regular output of the generated programs; data-URL inlined assets are not attributed by markers"),
